@@ -38,6 +38,8 @@ def layouts(tier):
             for sites in itertools.product([(2, 1), (3, 1)], repeat=d):
                 if sum(1 for s in sites if s == (3, 1)) <= 2:
                     out.append([list(s) for s in sites])
+    # layouts with an interior (or trailing) dummy mode of size 1 x 1
+    out += [[[2, 1], [1, 1], [3, 1]], [[3, 1], [1, 1], [2, 2]], [[2, 2], [1, 1], [3, 1], [2, 1]], [[3, 1], [2, 1], [1, 1], [3, 1]], [[2, 1], [3, 1], [1, 1]]]
     return out
 
 
@@ -79,6 +81,9 @@ def cases(tier):
                 for thr in THR:
                     for mr in ((INF, 1, 2, 3, 4) if sites not in deep_only else (INF, 3, 4, 5)):
                         yield {'ep': 'array', 'sites': sites, 'fam': fam, 'c': c, 'thr': thr, 'mr': mr}
+                        if fam == 'gauss' and thr in (0, 1e-6) and mr in (INF, 2):
+                            # the same array handed over in Fortran memory order
+                            yield {'ep': 'array', 'sites': sites, 'fam': fam, 'c': c, 'thr': thr, 'mr': mr, 'lay': 'F'}
                         if fam == 'gauss' and thr in (0, 1e-6) and mr in (INF, 2):
                             # the same tensor in tiny units (x 1e-10): every entry, real and imaginary part, is small in absolute terms
                             yield {'ep': 'array', 'sites': sites, 'fam': fam, 'c': c, 'thr': thr, 'mr': mr, 'unit': 1e-10}
@@ -356,7 +361,7 @@ def run_case(case, seed):
                 kw['threshold'] = thr
             if mr != INF:
                 kw['max_rank'] = mr_arg
-            T = TT(np.array(x), **kw)
+            T = TT(np.asfortranarray(np.array(x)) if case.get('lay') == 'F' else np.array(x), **kw)
         elif ep == 'ortho_wgt':
             T = TT(np.array(xun))
             T.cores[0] = T.cores[0] * wgt[None, :, None, None]
